@@ -23,6 +23,7 @@ import (
 	"sort"
 	"strconv"
 	"strings"
+	"sync"
 	"unicode"
 	"unicode/utf8"
 
@@ -1308,6 +1309,13 @@ func cgRenderYAML(doc map[string]any, style int) string {
 	return sb.String()
 }
 
+// one scratch directory per test process (under the driver's per-run work directory); one file per call
+var (
+	cgTmpOnce sync.Once
+	cgTmpDir  string
+	cgTmpSeq  int
+)
+
 // cgPanicError is returned by cgLoadYAML when conf.Load panicked.
 type cgPanicError struct{ v any }
 
@@ -1335,12 +1343,17 @@ func cgLoadYAML(text string, env map[string]string) (c *Conf, err error) {
 			panic(fmt.Sprintf("harness: cannot set %q: %v", k, err2))
 		}
 	}
-	dir, err := os.MkdirTemp(os.Getenv("VERIF_WORKDIR"), "cgconf")
-	if err != nil {
-		panic(err)
-	}
+	cgTmpOnce.Do(func() {
+		d, err2 := os.MkdirTemp(os.Getenv("VERIF_WORKDIR"), "cgconf")
+		if err2 != nil {
+			panic(err2)
+		}
+		cgTmpDir = d
+	})
+	cgTmpSeq++
+	fp := filepath.Join(cgTmpDir, "mediamtx-"+strconv.Itoa(cgTmpSeq)+".yml")
 	defer func() {
-		os.RemoveAll(dir) //nolint:errcheck
+		os.Remove(fp) //nolint:errcheck
 		for _, k := range envKeys {
 			os.Unsetenv(k) //nolint:errcheck
 		}
@@ -1351,7 +1364,6 @@ func cgLoadYAML(text string, env map[string]string) (c *Conf, err error) {
 			c, err = nil, cgPanicError{r}
 		}
 	}()
-	fp := filepath.Join(dir, "mediamtx.yml")
 	if err = os.WriteFile(fp, []byte(text), 0o600); err != nil {
 		panic(err)
 	}
